@@ -5,6 +5,7 @@ package checks
 import (
 	"context"
 	"encoding/json"
+	"errors"
 	"fmt"
 	"math/big"
 	"regexp"
@@ -517,6 +518,16 @@ func TestC12(t *testing.T) {
 				params.IdempotencyKey = drawKey("engineKey")
 				params.DryRun = rapid.IntRange(0, 5).Draw(rt, "enginePreview") == 0
 			}
+			// "never hangs" holds for the engine too: every call carries a deadline far beyond what any of them needs
+			base := ectx
+			ectx, cancelDeadline := context.WithTimeout(base, 15*time.Second)
+			defer cancelDeadline()
+			hung := ""
+			noteHang := func(what string, err error) {
+				if err != nil && hung == "" && (errors.Is(err, context.DeadlineExceeded) || strings.Contains(err.Error(), "deadline exceeded")) {
+					hung = fmt.Sprintf("%s did not finish within 15 s: %v", what, err)
+				}
+			}
 			otherWrite := func(label string) any {
 				kind := rapid.SampledFrom([]string{"none", "none", "save_meta_account", "save_meta_tx", "delete_meta_account", "delete_meta_tx", "revert"}).Draw(rt, label)
 				if kind == "none" {
@@ -540,6 +551,7 @@ func TestC12(t *testing.T) {
 					}
 					if err != nil {
 						_ = err.Error()
+						noteHang("a "+kind+" on the long-lived Commander", err)
 					}
 				})
 			}
@@ -551,18 +563,24 @@ func TestC12(t *testing.T) {
 			}
 			if pn == nil && eerr != nil {
 				pn = safely(func() { _ = eerr.Error() })
+				noteHang("the script submitted to the long-lived Commander", eerr)
 			}
 			if pn == nil {
 				pn = otherWrite("engineAfter")
 			}
-			if pn != nil {
+			if pn == nil && hung != "" {
+				sig, msg = "C12/engine-hang", hung
+			} else if pn != nil {
 				sig, msg = "C12/engine-panic/"+panicClass(fmt.Sprint(pn)), fmt.Sprintf("a write on the long-lived Commander panicked: %v", pn)
 			} else {
 				var after error
 				pn2 := safely(func() {
 					_, after = commander.CreateTransaction(ectx, command.Parameters{}, ledger.RunScript{Script: ledger.Script{Plain: c12Script, Vars: map[string]string{}}})
 				})
-				if pn2 != nil || after != nil {
+				noteHang("a plain transaction after the script", after)
+				if hung != "" {
+					sig, msg = "C12/engine-hang", hung
+				} else if pn2 != nil || after != nil {
 					sig, msg = "C12/engine-poisoned", fmt.Sprintf("after the script, a plain transaction on the same ledger fails: %v %v", pn2, after)
 				}
 			}
